@@ -55,9 +55,9 @@ def run_judge(module, obs, workdir, parts=16, timeout=1500, cfg="Judge.cfg", env
                    "tlc_wall_s": round(time.time() - t0, 2), "tlc_cpu_s": round(cpu, 2)}
 
 
-def run_laws(module, workers=4, timeout=900):
+def run_laws(module, workers=4, timeout=900, cfg=None):
     """Model-check the laws of a Layer-A module (spec/MC_<module>.tla).  A failing law means the
     specification itself is inconsistent: a machinery failure, never a property violation."""
-    r = tlc.run_tlc("MC_%s.tla" % module, "MC_%s.cfg" % module, workers=workers, timeout=timeout)
+    r = tlc.run_tlc("MC_%s.tla" % module, cfg or ("MC_%s.cfg" % module), workers=workers, timeout=timeout)
     ok = "Model checking completed. No error has been found." in r["out"]
     return ok, {"law_states": r["distinct"], "law_wall_s": round(r["wall"], 2)}, r["out"][-2500:]
